@@ -72,25 +72,6 @@ theorem mask_shape (H W total : Nat) (tape : List Proposal) (r : GenRes)
     (h : generateMask H W total (zeros H W) tape = .ok r) : WellShaped H W r.mask :=
   (genLoop_inv H W total (total + 1) _ 0 tape [] r h (Nat.zero_le _)).2.2 (wellShaped_zeros H W)
 
-/-- what `collate` returns before the shuffle: the generated masks followed by empty ones -/
-theorem collate_unfold {β : Type} {batch : β} {H W n k : Nat} {gens : List Gen} {perm : List Nat} {o : Out β}
-    (h : collate batch H W n k gens perm = .ok o) :
-    gens.length = k ∧ k ≤ n ∧ generateAll H W gens = .ok o.gens ∧ o.batch = batch ∧
-    o.masks = applyPerm perm (o.gens.map GenRes.mask ++ List.replicate (n - k) (zeros H W)) := by
-  unfold collate at h
-  by_cases h1 : gens.length ≠ k
-  · simp [h1] at h
-  · simp only [h1, if_false] at h
-    by_cases h2 : k > n
-    · simp [h2] at h
-    · simp only [h2, if_false] at h
-      cases hg : generateAll H W gens with
-      | error e => simp [hg] at h
-      | ok rs =>
-        simp only [hg, Except.ok.injEq] at h
-        subst h
-        exact ⟨by simpa using h1, by omega, rfl, rfl, rfl⟩
-
 /-- **The shuffle is a permutation** of the generated-then-empty list, for every permutation the generator draws -/
 theorem shuffle_perm {β : Type} (batch : β) (H W n k : Nat) (gens : List Gen) (perm : List Nat) (o : Out β)
     (h : collate batch H W n k gens perm = .ok o) (hp : perm.Perm (List.range n)) :
